@@ -398,6 +398,9 @@ package jet
 // ---- executors ------------------------------------------------------------------------------------------
 
 // cleanup closures returned by getRanger (getRanger$1, getRanger$2): only sync.Pool.Put
+//@ func dynamic:func() reflect.Value
+//@   trusted the only such values called are resolveIndex's indexAsValue closures (resolveIndex$1, resolveIndex$2), which only read
+//@   nopanic
 //@ func dynamic:func()
 //@   trusted the only func() values called in this package are getRanger's cleanup closures
 //@   nopanic
@@ -469,7 +472,8 @@ package jet
 //@   requires RtOK(st)
 //@   modifies @Interp
 //@   ensures [yieldblock-balanced] SameS(st)
-//@   callsite (*Runtime).executeList count 1
+//@   ensures [yieldblock-renders-exactly-once] ncalls("(*Runtime).executeList") == 1
+//@   callsite (*Runtime).executeList * requires [yieldblock-context] ite(caller.context != nil, st.context == RvOf(caller.context), st.context == old(st.context))
 
 //@ func (*Set).getSiblingTemplate
 //@   props C15 C16
